@@ -287,6 +287,7 @@ def run_scenario(sc):
         except Exception as e:  # noqa
             obs['managers_alive_after_release'] = None
     obs.pop('_open_gens', None)
+    obs.pop('_open_by_op', None)
     obs.pop('_pending_apply', None)
     import json as _json
     return _json.loads(_json.dumps(obs, default=lambda x: repr(x)[:120]))
@@ -935,6 +936,16 @@ def _run(sc, S, obs):
                     o['outcome'] = 'ok'
                 elif kind == 'other_pool':
                     _do_other_pool(op, o, other, S)
+                elif kind == 'resume':
+                    # the consumer comes back to a lazy call it had left open and takes the rest
+                    it0, gen0, o0, got0 = obs.get('_open_by_op', {}).pop(op['of'])
+                    for v in it0:
+                        got0.append(v)
+                    o0['result'] = _res_json(got0)
+                    o0['resumed'] = True
+                    if gen0 in obs.get('_open_gens', []):
+                        obs['_open_gens'].remove(gen0)
+                    o['outcome'] = 'ok'
                 elif kind == 'kill_idle':
                     w = pool._workers[op['victim']]
                     sim.sim_kill(w.pid, sim.SIGKILL)
@@ -1151,6 +1162,7 @@ def _do_map(pool, op, opi, o, mk_funcs, S, obs):
                 else:
                     o['abandoned'] = True
                     obs.setdefault('_open_gens', []).append(gen)
+                    obs.setdefault('_open_by_op', {})[opi] = (it, gen, o, got)
             o['outcome'] = 'ok'
             o['result'] = _res_json(got)
     finally:
